@@ -1,5 +1,5 @@
 (* Witnesses for the known findings of C05: histories on which a warm cache answers differently from a cold one. *)
-Require Import PonyV.Base.PyBase PonyV.Model.C05Memo PonyV.Proofs.C05Memo.
+Require Import PonyV.Base.PyBase PonyV.Model.C05Memo PonyV.Gen.C05Flags PonyV.Model.C05Inst PonyV.Proofs.C05Memo.
 
 (* select(...)[:] ; db.execute("update ...") ; the same select(...)[:] in one db_session: the second answer is the list
    cached before the update (the raw write does not touch cache.query_results) *)
@@ -32,3 +32,7 @@ Theorem C05_unsound_key_is_observable : forall I K V (keqb : K -> K -> bool) (ke
   run I K V keqb key compute [] [Get i1; Get i2] <> map (fresh I K V compute) [Get i1; Get i2].
 Proof. exact memo_unsound. Qed.
 Print Assumptions C05_unsound_key_is_observable.
+
+(* the code as it is (flags read from pony/orm/core.py on every run, Gen/C05Flags.v): when a flag becomes true - the
+   hole was repaired in the source - the corresponding known finding must stop reproducing *)
+Definition C05_flags_read_from_source : bool * bool := (raw_clears_in_source, aggr_flushes_in_source).
